@@ -6,16 +6,16 @@ package verifsim
 
 import (
 	"context"
-	"os"
 	"crypto/sha256"
 	"encoding/hex"
-	"sort"
-	"strings"
-	"sync/atomic"
 	"errors"
 	"fmt"
 	"net/http"
+	"os"
+	"sort"
+	"strings"
 	"sync"
+	"sync/atomic"
 	"time"
 
 	"github.com/atlassian/gostatsd"
@@ -31,12 +31,12 @@ func (c16) ID() string { return "C16" }
 
 type cbCall struct {
 	startStep, endStep int64
-	n       int
-	startAt time.Time
-	endAt   time.Time
-	cbs     int
-	errs    []error
-	series  int
+	n                  int
+	startAt            time.Time
+	endAt              time.Time
+	cbs                int
+	errs               []error
+	series             int
 }
 
 // cbBackend observes the SendCallback of every SendMetricsAsync call at the Backend interface.
@@ -94,10 +94,18 @@ var errWriteFailed = errors.New("write: broken pipe (simulated)")
 
 func (c16) Run(e *Env) {
 	e.ProbeDecl("kind-http", "kind-conn", "kind-cloudwatch", "kind-none", "http-retry", "lost-op-attributed-to-request", "http-client-timeout", "http-429-retry-after", "dial-refused", "write-error", "short-write",
-		"streams-queued-on-sender", "cancel-mid-flush", "cloudwatch-error", "several-batches-per-flush", "empty-flush", "second-stream-while-reconnecting", "siege")
+		"streams-queued-on-sender", "cancel-mid-flush", "cloudwatch-error", "several-batches-per-flush", "empty-flush", "second-stream-while-reconnecting", "siege", "retries-disabled")
 	kind := BackendKinds[e.Draw(len(BackendKinds))]
 	spec := BackendSpec{Kind: kind, BatchSize: []int{0, 1, 2, 3, 21}[e.Draw(5)], Compress: e.Bool(), MaxRequests: e.Range(1, 4), FlushInterval: time.Second}
-	spec.RetryWindow = []time.Duration{0, 2 * time.Second, 5 * time.Second}[e.Draw(3)]
+	spec.RetryWindow = []time.Duration{0, 2 * time.Second, 5 * time.Second, -1}[e.Draw(4)]
+	if spec.RetryWindow < 0 {
+		// -1 = retries disabled; only the backends whose configuration accepts it
+		if kind == "datadog" || strings.HasPrefix(kind, "influxdb") || strings.HasPrefix(kind, "newrelic") {
+			e.Probe("retries-disabled")
+		} else {
+			spec.RetryWindow = 0
+		}
+	}
 	fab, conns, cw := NewFabric(), NewConnSim(), NewCWSim()
 	// request bodies are not byte-stable across executions (series order comes from Go map walks):
 	// identify a body by its decoded, sorted content
@@ -132,7 +140,8 @@ func (c16) Run(e *Env) {
 	cfg := W1Config{Readers: 1, Parsers: 1, Workers: e.Range(1, 3), Queue: 8, BatchSize: 1, Flush: 1300 * time.Millisecond, // not a divisor of the 10 s client timeout: a request issued at a tick never times out exactly at a later tick
 
 		ExpCounter: time.Hour, ExpGauge: time.Hour, ExpSet: time.Hour, ExpTimer: time.Hour, Percent: []float64{90},
-		Backends: []gostatsd.Backend{wb}}
+		HistLimit: []uint32{0, 2, 10}[e.Draw(3)],
+		Backends:  []gostatsd.Backend{wb}}
 	if bb.Run != nil {
 		cfg.Runnables = []gostatsd.Runnable{bb.Run}
 	}
@@ -180,7 +189,8 @@ func (c16) Run(e *Env) {
 					fmt.Sprintf("c16.gauge%d:%d.5|g", s, e.Draw(100)),
 					fmt.Sprintf("c16.timer%d:%d|ms|#az:a", s, e.Draw(1000)),
 					fmt.Sprintf("c16.set%d:u%d|s", s, e.Draw(5)),
-				}[e.Draw(4)])
+					fmt.Sprintf("c16.hist%d:%d|ms|#gsd_histogram:10_100_500,az:b", s, e.Draw(1000)),
+				}[e.Draw(5)])
 			}
 			w.Send(0, []byte(joinStrings(lines)))
 		}
@@ -457,6 +467,9 @@ func (c16) Run(e *Env) {
 		window := spec.RetryWindow
 		if window == 0 {
 			window = 15 * time.Second
+		}
+		if window < 0 {
+			window = 0 // retries disabled: the first failed attempt ends the request
 		}
 		siegeStart := time.Now()
 		pendingAtStart := map[int]bool{}
